@@ -504,6 +504,24 @@ def scn_assignment(T, case):
 
     scn_get_mask(T, case)
 
+# ------------------------------------------------------------------------------------ activity flags of later gradient requests
+def cases_activity_history(tier):
+    from contracts import C06
+
+    for cid, c in C06.cases_activity_calls(tier):
+        if c.get("second_pair"):
+            yield cid, c
+
+
+def scn_activity_history(T, case):
+    """Exactness with an evaluator that fills only the entries flagged as needed rests on the flags of EVERY gradient request being
+    those of the weights in force at that point - also the second and later ones on the same evaluator, when a filter selects other
+    realizations (C06's scenario under this property's prefix)."""
+    from contracts import C06
+    from contracts.reuse import Renamed
+
+    C06.scn_activity_calls(Renamed(T, "C06.calls.", "C02.activity_flags."), case)
+
 SCENARIOS = [
     Scenario("gradient_affine", scn_gradient, cases_gradient, {"quick": 10, "thorough": 60}),
     Scenario("gradient_weight_rows", scn_rows, cases_rows, {"quick": 10, "thorough": 60}),
@@ -512,6 +530,7 @@ SCENARIOS = [
     Scenario("svd_solve_body_by_library_contract", scn_svd_body, cases_svd_body, {"quick": 10, "thorough": 100}),
     Scenario("user_domain_results", scn_user_results, cases_user_results, {"quick": 3, "thorough": 20}),
     Scenario("sampler_variable_assignment", scn_assignment, cases_assignment, {"quick": 1, "thorough": 1}),
+    Scenario("activity_flags_of_later_gradient_requests", scn_activity_history, cases_activity_history, {"quick": 5, "thorough": 30}),
 ]
 
 MANIFEST = {
